@@ -7,6 +7,7 @@ import (
 	"errors"
 	"fmt"
 	"io"
+	"runtime"
 	"runtime/debug"
 	"runtime/metrics"
 	"strings"
@@ -80,6 +81,15 @@ var sample = []metrics.Sample{{Name: "/gc/heap/allocs:bytes"}}
 func Allocated() uint64 {
 	metrics.Read(sample)
 	return sample[0].Value.Uint64()
+}
+
+// AllocatedPrecise is the exact cumulative number of heap bytes allocated (stops the world,
+// flushes the per-P caches); used to confirm a suspicious delta of Allocated, whose counters
+// are flushed lazily (a garbage collection can add megabytes of earlier small allocations).
+func AllocatedPrecise() uint64 {
+	var m runtime.MemStats
+	runtime.ReadMemStats(&m)
+	return m.TotalAlloc
 }
 
 // WithTimeout runs f in a goroutine; ok=false when it did not finish in time
